@@ -92,4 +92,27 @@ __CPROVER_ensures(__CPROVER_return_value == HTP_OK ==> (ADD_POST_OK(table, __CPR
 __CPROVER_ensures(__CPROVER_return_value == HTP_ERROR ==> ADD_POST_ERR(table, __CPROVER_old(TL(table)->current_size), __CPROVER_old(VIEW(TL(table), gk))))
 __CPROVER_ensures((__CPROVER_old(table->alloc_type) != HTP_TABLE_KEYS_ALLOC_UKNOWN && __CPROVER_old(table->alloc_type) != HTP_TABLE_KEYS_REFERENCED) ==> (__CPROVER_return_value == HTP_ERROR && table->alloc_type == __CPROVER_old(table->alloc_type)))
 ;
+
+/* ---- clearing: key ownership (C17 / C18).  bstr_free is REPLACED by a call-logging stub (same log as the comparators): the gk-th call saw g_wit_key ---- */
+void contract_c17log_bstr_free(bstr *b)
+__CPROVER_requires(g_cmp_n < LCAP)
+__CPROVER_assigns(CMP_LOG_ASSIGNS)
+__CPROVER_ensures(g_cmp_n == __CPROVER_old(g_cmp_n) + 1 && g_last_key == (const void *) b &&
+                  (__CPROVER_old(g_cmp_n) == gk ? g_wit_key == (const void *) b : g_wit_key == __CPROVER_old(g_wit_key)));
+#define KEYS_OWNED(t) ((t)->alloc_type == HTP_TABLE_KEYS_COPIED || (t)->alloc_type == HTP_TABLE_KEYS_ADOPTED)
+/* a table that owns its keys (copied / adopted) releases every key exactly once, in pair order, and never an element; a table that only
+ * references its keys (or whose policy is still unknown) releases nothing; afterwards the table is empty and keeps its storage and policy */
+void contract_htp_table_clear(htp_table_t *table)
+__CPROVER_requires(WF_TABLE_PRE(table) && g_cmp_n == 0 && gk < LCAP && 2 * gk < TL(table)->max_size)
+__CPROVER_assigns(CMP_LOG_ASSIGNS, TL(table)->first, TL(table)->last, TL(table)->current_size)
+__CPROVER_ensures(TL(table)->current_size == 0 && TL(table)->max_size == __CPROVER_old(TL(table)->max_size) && TL(table)->elements == __CPROVER_old(TL(table)->elements) &&
+                  table->alloc_type == __CPROVER_old(table->alloc_type))
+__CPROVER_ensures(g_cmp_n == (KEYS_OWNED(table) ? __CPROVER_old(TL(table)->current_size) / 2 : 0))
+__CPROVER_ensures((KEYS_OWNED(table) && 2 * gk < __CPROVER_old(TL(table)->current_size)) ==> g_wit_key == __CPROVER_old(VIEW(TL(table), 2 * gk)))
+;
+void contract_htp_table_clear_ex(htp_table_t *table)
+__CPROVER_requires(WF_TABLE_PRE(table))
+__CPROVER_assigns(TL(table)->first, TL(table)->last, TL(table)->current_size)
+__CPROVER_ensures(TL(table)->current_size == 0 && TL(table)->max_size == __CPROVER_old(TL(table)->max_size) && TL(table)->elements == __CPROVER_old(TL(table)->elements))
+;
 #endif
